@@ -18,6 +18,7 @@ import (
 	"github.com/bbockelm/cedar/commands"
 	"github.com/bbockelm/cedar/message"
 	"github.com/bbockelm/cedar/stream"
+	"github.com/bbockelm/cedar/verifhook"
 )
 
 // SharedPortClient handles connections to daemons behind HTCondor's shared port
@@ -57,7 +58,14 @@ func (spc *SharedPortClient) ConnectViaSharedPort(ctx context.Context, sharedPor
 	}
 
 	// Connect to the shared port server
-	conn, err := net.DialTimeout("tcp", sharedPortAddr, deadline)
+	var conn net.Conn
+	var err error
+	if d := verifhook.Dialer(); d != nil {
+		// verif build only: dial through the simulated network.
+		conn, err = d(ctx, "tcp", sharedPortAddr)
+	} else {
+		conn, err = net.DialTimeout("tcp", sharedPortAddr, deadline)
+	}
 	if err != nil {
 		return nil, fmt.Errorf("failed to connect to shared port server at %s: %w", sharedPortAddr, err)
 	}
